@@ -61,6 +61,7 @@ type Config struct {
 	FundColl                   int64
 	FundDebt                   int64 // fixture-minted debt coins per user (bidders), recorded as fixtureMint
 	Decoy                      bool  // a second app registered BEFORE the app under test (so its id is lower and the app under test is not id 1), whitelisted for both liquidation generations, with its circuit breaker and its emergency shutdown on: nothing of it may leak into the app under test
+	FixedOutPrice              int64 // fixed debt price of the second product (0 = 1); with 2 the debt asset's own oracle feed (1) lies BELOW it
 	CollectorFund              int64 // fixture-minted debt coins booked as the app's net fees of the debt asset (a collector rich enough to cover any auction loss)
 	Interest                   bool  // register app in rewards so that stability-fee interest accrues
 	Bonus                      Frac  // auction bonus of externally initiated auctions
@@ -208,6 +209,9 @@ func Setup(cfg Config) *World {
 	b.Ceiling = 150 * cfg.DecS
 	b.OutOracle = false // fixed debt price (AssetOutPrice = 1): the ratio values the debt at OutPrice / debt decimals, V2 auctions mark the debt as cmst
 	b.OutPrice = 1
+	if cfg.FixedOutPrice > 0 {
+		b.OutPrice = cfg.FixedOutPrice
+	}
 	w.Prods = append(w.Prods, w.addProduct("ATOMB", p2, b))
 	c := base
 	c.CollD, c.CollA = "uus", uu
